@@ -20,7 +20,7 @@
                metadata        fail[k][s] # 0  key k of sample s differs
                stats_tasks/tests  fail[1][s] = number of items with status s
                                   (status 1 is the success status)
-               stats_labels    fail[r] = <<#ok, #ko>> for label row r
+               stats_labels    fail[r] = <<#ok, #ko>> for label row r (<<>>: no row)
                failed          unused
    A rendering (variable out) is a sequence of PARTS.  A part belongs to the
    result itself ("main") or, for the corrected tests (Bonferroni, Holm), to
@@ -176,10 +176,13 @@ Pattern(k) ==
      [] k = "metadata" ->
            UNION {[1 .. nk -> [1 .. ns -> 0 .. 1]] : nk \in 1 .. MaxKeys, ns \in 1 .. MaxSamp}
      [] k \in {"stats_tasks", "stats_tests"} ->
+           \* beyond the first two statuses at most one has several items (bounds the enumeration)
            {<<c>> : c \in {c \in [1 .. NStatus(k) -> 0 .. MaxCount] :
-                                 (\E s \in DOMAIN c : c[s] > 0) /\ (\A s \in 2 .. NStatus(k) : s > 2 => c[s] <= 1)}}
+                                 (\E s \in DOMAIN c : c[s] > 0)
+                                 /\ Cardinality({s \in 3 .. NStatus(k) : c[s] > 1}) <= 1}}
      [] k = "stats_labels" ->
-           UNION {[1 .. nr -> {<<1, 0>>, <<2, 0>>, <<1, 1>>, <<0, 1>>, <<0, 2>>}] : nr \in 1 .. MaxLabRows}
+           \* nr = 0: no test carries every selected label, the summary has no row at all (and passes)
+           UNION {[1 .. nr -> {<<1, 0>>, <<2, 0>>, <<1, 1>>, <<0, 1>>, <<0, 2>>}] : nr \in 0 .. MaxLabRows}
      [] OTHER -> {<<<<1>>>>}
 
 ShapeOK(k, sh, f) == IF k \in DsKinds THEN \A d \in DOMAIN f : Len(f[d]) = Prod(sh) ELSE sh = <<>>
